@@ -247,6 +247,8 @@ pub enum Repr {
     Appended { split: u16, pre: Vec<u8> },
     /// rest collected, first part prepended from a window
     Prepended { split: u16, pre: Vec<u8> },
+    /// `Seq::from(&BitSlice)` (the unstable constructor) of a bit slice starting `head` bits into a word
+    FromBitSlice { head: u8 },
     /// junk collected, `clear()`, then the content extended (dead bits of the old content remain behind)
     Refilled { junk: Vec<u8> },
     /// first part + junk collected, `truncate(split)`, then the rest extended
@@ -278,6 +280,7 @@ impl Repr {
             Repr::Truncated { .. } => "truncated",
             Repr::Appended { .. } => "appended",
             Repr::Prepended { .. } => "prepended",
+            Repr::FromBitSlice { .. } => "from_bitslice",
             Repr::Refilled { .. } => "refilled",
             Repr::TruncExtend { .. } => "trunc_extend",
             Repr::Static(_) => "static",
@@ -533,6 +536,19 @@ fn build_raw<C: Cm>(sy: &Syms<C>, spec: &SeqSpec) -> R<Built<C>> {
             let p = sy.seq(&cat(&[&pre, &codes[..k]]));
             s.prepend(&p[pre.len()..]);
             Built::Owned(s)
+        }
+        Repr::FromBitSlice { head } => {
+            use bitvec::prelude::*;
+            let head = (*head % 64) as usize;
+            let mut bv: BitVec<usize, Lsb0> = BitVec::repeat(true, head);
+            for c in &codes {
+                for b in 0..m.bits {
+                    bv.push((c >> b) & 1 == 1);
+                }
+            }
+            bv.push(true);
+            let end = head + codes.len() * m.bits;
+            Built::Owned(Seq::<C>::from(&bv[head..end]))
         }
         Repr::Refilled { junk } => {
             let mut s = sy.seq(&sane(m, junk));
